@@ -91,6 +91,45 @@ def run_unit(unit, repo="/repo", workdir=None, canary=False, variant=None, keep=
     res["cmd"] = " ".join(cmd)
     env = dict(os.environ)
     p = subprocess.run(cmd, capture_output=True, text=True, cwd=workdir, env=env)
+    # R11: Verus has no non-short-circuit `|` / `&` on bools.  `X |= E` on bools is rewritten, at exactly the span Verus names,
+    # to `{ let verif_rhs: bool = E; X = X || verif_rhs; }` (both operands still evaluated, in the same order) and the unit is
+    # re-run; every application is logged.  Anything that does not match this shape stays a hard (inconclusive) rejection.
+    res["r11"] = []
+    for _round in range(8):
+        spans = []
+        for ln in p.stderr.splitlines():
+            ln = ln.strip()
+            if not ln.startswith("{"):
+                continue
+            try:
+                d = json.loads(ln)
+            except Exception:
+                continue
+            if d.get("level") == "error" and re.search(r"bitwise (OR|AND) for bools", d.get("message", "")):
+                for sp in d.get("spans", []):
+                    if sp.get("is_primary"):
+                        spans.append((sp["byte_start"], sp["byte_end"], "OR" if "bitwise OR" in d["message"] else "AND"))
+        if not spans:
+            break
+        src_b = open(out_rs, "rb").read()
+        changed = False
+        for (bs, be, kind) in sorted(set(spans), reverse=True):
+            semi = src_b.find(b";", be)
+            nl = src_b.find(b"\n", be)
+            if semi >= 0 and (nl < 0 or semi < nl):
+                be = semi   # the primary span is the left operand only: extend to the end of the statement
+            txt = src_b[bs:be].decode()
+            opa, opl = ("|=", "||") if kind == "OR" else ("&=", "&&")
+            m = re.match(r"^([^=|&\n]+?)\s*" + re.escape(opa) + r"\s*([^\n]+)$", txt)
+            if m:
+                rep = "{ let verif_rhs: bool = " + m.group(2) + "; " + m.group(1) + " = " + m.group(1) + " " + opl + " verif_rhs; }"
+                src_b = src_b[:bs] + rep.encode() + src_b[be:]
+                res["r11"].append(f"R11 `{txt}` => `{rep}`")
+                changed = True
+        if not changed:
+            break
+        open(out_rs, "wb").write(src_b)
+        p = subprocess.run(cmd, capture_output=True, text=True, cwd=workdir, env=env)
     res["verus_exit"] = p.returncode
     try:
         j = json.loads(p.stdout)
